@@ -31,7 +31,12 @@ TraceBinary ==
      /\ IF r.op = "hadamard" THEN Hadamard(r.arg, r.k) ELSE Binary(r.op, r.arg)
      /\ Logged(r)
 
-TraceNext == TraceReset \/ TraceBinary
+\* other library activity (a training run that completed, one that aborted half-way, a validation pass, batch
+\* prediction, a training run in progress on another thread) is a stuttering step: the contract of a tensor does not
+\* depend on the history of the rest of the library
+TraceOther == IsEvent("Other") /\ UNCHANGED vars
+
+TraceNext == TraceOther \/ TraceReset \/ TraceBinary
 TraceSpec == TraceInit /\ [][TraceNext]_tvars
 
 TraceAccepted ==
